@@ -81,7 +81,23 @@ pub struct PanicInfo {
 
 impl PanicInfo {
     pub fn signature(&self) -> String {
-        let msg: String = strip_numbers(&self.message);
+        // drop quoted pieces of the message (they usually contain the input text)
+        let mut clean = String::new();
+        let mut in_tick = false;
+        for c in self.message.chars() {
+            if c == '`' {
+                in_tick = !in_tick;
+                continue;
+            }
+            if !in_tick {
+                clean.push(c);
+            }
+        }
+        let clean = match clean.find(" of ") {
+            Some(p) if clean.contains("char boundary") => clean[..p].to_string(),
+            _ => clean,
+        };
+        let msg: String = strip_numbers(&clean);
         let f0 = self.frames.first().cloned().unwrap_or_else(|| {
             // no symbolised frame: fall back to the source file (without the line)
             self.location
